@@ -169,6 +169,11 @@ func c11(args []string) {
 		for k := 0; k < c.Pick(2, 4); k++ {
 			jobs = append(jobs, &c11Job{kind: "runto", s: s, target: []string{names[rng.Intn(len(names))]}, cfg: cfg(), label: "RunTo then Run"})
 		}
+		for k := 0; k < c.Pick(1, 3); k++ {
+			// an ancestor's audit file truncated to 0 bytes (what a kill between the truncating open and the write of a
+			// re-written audit file leaves behind), then resume: refusing is fine, silently losing the lineage is not
+			jobs = append(jobs, &c11Job{kind: "truncated-audit", s: s, target: []string{names[rng.Intn(len(names))]}, cfg: cfg(), label: "RunTo, ancestor audit file truncated to 0 bytes, Run"})
+		}
 		for k := 0; k < c.Pick(3, 6); k++ {
 			// downstream-closed deletion set
 			seed := exp.Tasks[rng.Intn(len(exp.Tasks))]
@@ -264,6 +269,36 @@ func c11(args []string) {
 			r2 := execSpec(c, root, s, j.cfg, nil, true, 1)
 			if r2.Exit != 0 || !r2.Returned {
 				c.Violation("resume-failed", fmt.Sprintf("Run after RunTo exited %d: %s", r2.Exit, tail(r2.Output(), 400)), desc)
+				return
+			}
+			lastStarts = len(mon.Index(r2.Trace).Starts)
+		case "truncated-audit":
+			s1 := s.Clone()
+			s1.Run = spec.Run{Mode: "runto", Targets: j.target}
+			r1 := execSpec(c, root, s1, j.cfg, nil, false, 0)
+			if r1.Exit != 0 {
+				c.Inconclusive("RunTo prefix failed")
+				return
+			}
+			exp1 := evalRef(s1, nil)
+			var cand []string
+			for p := range exp1.AuditFor {
+				if !filepath.IsAbs(p) {
+					cand = append(cand, p)
+				}
+			}
+			sort.Strings(cand)
+			if len(cand) == 0 {
+				return
+			}
+			victim := cand[i%len(cand)]
+			os.Truncate(filepath.Join(r1.Wd, victim+".audit.json"), 0)
+			desc["truncated"] = victim + ".audit.json"
+			fromDisk = len(mon.Index(r1.Trace).Starts)
+			r2 := execSpec(c, root, s, j.cfg, nil, true, 1)
+			if r2.Exit != 0 || !r2.Returned {
+				c.Count("resume_refused_damaged_audit_file", 1)
+				c.Nontrivial(fmt.Sprintf("%s|truncated-refused|%s", gen.ShapeHash(s), victim))
 				return
 			}
 			lastStarts = len(mon.Index(r2.Trace).Starts)
